@@ -14,7 +14,8 @@ case = {"n": live processes (pids 0..n-1), "dead": [pids without a process], "l0
         "held": h     process h already holds the lock (acquired on the free path before the schedule starts),
         "ustart": [p] p's FilesystemLock is a copy of a locked object (locked=True) of its parent and its first
                       call is unlock() -- it never locked anything itself,
-        "made_by": {"p": c}  p's object was constructed while os.getpid() returned c (built before a fork)}
+        "made_by": {"p": c}  p's object was constructed while os.getpid() returned c (built before a fork),
+        "dbl": [p]    p calls unlock() a second time after every successful release (a former holder releasing twice)}
 ``cas`` = repair simulation: the rmlink of the stale-lock path atomically refuses (ENOENT) when the link no
 longer holds the pid that process found dead.  It is never True for the cases that judge /repo as it is;
 it exists to show that model, correspondence and oracle accept a repaired behaviour silently.
@@ -82,6 +83,7 @@ class World:
         self.held = case.get("held")
         self.ustart = set(case.get("ustart") or [])
         self.made_by = {int(k): v for k, v in (case.get("made_by") or {}).items()}
+        self.dbl = set(case.get("dbl") or [])
         self.override = None        # pid reported by os.getpid() while an object is being constructed
         # replay
         self.curp = None
@@ -206,7 +208,19 @@ class World:
             del self.fs[filename]
             self.cur.append(("D+" if un else "d+") + self.sfx(filename))
             return ("ok", None)
+        if name == "rename":
+            src, dst = args
+            if src not in self.fs:
+                self.cur.append("mvN" + self.sfx(src) + ">" + self.sfx(dst) + ":")
+                return ("err", errno.ENOENT)
+            content = self.fs.pop(src)
+            self.fs[dst] = content          # POSIX rename: atomic, replaces the destination
+            self.cur.append("mv+" + self.sfx(src) + ">" + self.sfx(dst) + ":" + content)
+            return ("ok", None)
         raise AssertionError(name)
+
+    def rename(self, src, dst):
+        return self.prim("rename", (src, dst))
 
     # signatures of os.symlink / os.readlink / os.kill / os.remove
     def symlink(self, value, filename):
@@ -249,9 +263,11 @@ class World:
                 continue
             self.holders.add(p)
             self.incall[p] = "unlock"
+            released = False
             try:
                 lk.unlock()
                 self.note(p, "=U")
+                released = True
             except ValueError:
                 self.note(p, "=V")
             except OSError as e:
@@ -259,6 +275,17 @@ class World:
                     raise
                 self.note(p, "=O")
             self.holders.discard(p)
+            if released and p in self.dbl:
+                # a former holder releasing a second time
+                try:
+                    lk.unlock()
+                    self.note(p, "=U")
+                except ValueError:
+                    self.note(p, "=V")
+                except OSError as e:
+                    if e.errno != errno.ENOENT:
+                        raise
+                    self.note(p, "=O")
 
     def advance(self, p, lockfile):
         """replay mode: process p performs its next primitive call"""
@@ -287,7 +314,7 @@ def run_case(case, mode="replay") -> str:
     from twisted.python import lockfile
 
     w = World(case, mode)
-    saved = {k: getattr(lockfile, k) for k in ("symlink", "readlink", "kill", "rmlink", "os", "_windows")}
+    saved = {k: getattr(lockfile, k) for k in ("symlink", "readlink", "kill", "rmlink", "rename", "os", "_windows")}
     fake_os = types.SimpleNamespace(getpid=w.me, path=saved["os"].path)
     threads = []
     toks = []
@@ -303,6 +330,7 @@ def run_case(case, mode="replay") -> str:
     try:
         lockfile.open = foreign_open
         lockfile.symlink, lockfile.readlink, lockfile.kill, lockfile.rmlink = w.symlink, w.readlink, w.kill, w.rmlink
+        lockfile.rename = w.rename       # unused by the POSIX protocol as it is; scheduled like the others if used
         lockfile.os = fake_os
         lockfile._windows = False
         if mode == "threads":
@@ -613,8 +641,16 @@ def oracle(case, obs):
                            "outside the modelled protocol (kill(pid,0) = ESRCH); see the real-process cases", "foreign-io")
         left, _, r = body.partition("=")
         ret = "=" + r if r else ""
+        mv = re.match(r"mv\+([^>]*)>([^:]*):(.*)$", left)
+        if mv:
+            # a rename (not used by the protocol as it is): the lock path loses / gains a link
+            if mv.group(1) == "":
+                link = None
+            if mv.group(2) == "":
+                link = mv.group(3)
+            left = "@mv"
         # a primitive on another path (a repaired protocol may use guard files) has no effect on the lock path
-        prim = "" if "@" in left else left
+        prim = "" if "@" in left or left.startswith("mvN") else left
         # --- progress bookkeeping for lock() calls
         if p not in inunlock:
             c = call.get(p)
@@ -641,13 +677,14 @@ def oracle(case, obs):
                 else:
                     return fail(k, f"lock() removed the link of live process {link} without having found a dead "
                                 "owner", "break-of-live-lock")
-            call[p]["broke"] = True
+            call.setdefault(p, {"free": False, "solo": False, "steps": 0, "broke": False})["broke"] = True
             link = None
         elif prim == "D+":
             link = None
         # --- call returns
+        blank = {"free": False, "solo": False, "steps": 0, "broke": False}
         if ret.startswith("=T"):
-            c = call.pop(p)
+            c = call.pop(p, None) or blank
             want = "0" if c["broke"] else "1"
             holders.append(p)
             inunlock.add(p)
@@ -659,7 +696,8 @@ def oracle(case, obs):
                 return fail(k, f"lock() returned True with clean={ret[2:]} but "
                             f"{'it broke a stale lock' if c['broke'] else 'it broke no lock'}", "clean-flag")
         elif ret == "=F":
-            c = call.pop(p)
+            c = call.pop(p, None) or blank
+            inunlock.discard(p)
             if prim != "kA":
                 return fail(k, "lock() returned False without having seen a live owner", "refused-without-live-owner")
             if c["free"] and c["solo"]:
@@ -669,6 +707,9 @@ def oracle(case, obs):
             if was_holder:
                 holders.remove(p)
             inunlock.discard(p)
+            call.pop(p, None)
+            if was_holder and ret == "=U" and p in (case.get("dbl") or []):
+                inunlock.add(p)         # its next call is a second unlock()
             if not was_holder:
                 # unlock() by a process that never acquired (inherited object): must be refused, link untouched
                 if ret == "=U":
@@ -680,8 +721,13 @@ def oracle(case, obs):
                                 "release")
                 if link is not None:
                     return fail(k, "unlock() returned but the link is still there", "release-link")
-        elif ret:
+        elif ret == "=?":
             return fail(k, "lock() returned neither True nor False", "return-type")
+        elif ret:
+            # a trace shape the protocol as modelled cannot produce (several returns in one step ...): the
+            # correspondence reports it; the bookkeeping for p restarts
+            call.pop(p, None)
+            inunlock.discard(p)
         else:
             c = call.get(p)
             if c is not None and c["free"] and c["solo"] and c["steps"] >= SOLO_BOUND:
@@ -721,6 +767,8 @@ def corpus():
         {"kind": "realproc", "scenario": "dead-holder"},
         # daemonisation: object built by the launcher (pid 2, exited), locked by the surviving child 0; 1 contends
         {"n": 2, "dead": [2], "l0": None, "sched": [0, 1, 1, 1, 1, 1, 0, 0], "cas": False, "made_by": {"0": 2}},
+        # 0 acquires and releases twice; 1 acquires in between; 2 contends
+        {"n": 3, "dead": [], "l0": None, "sched": [0, 0, 0, 1, 0, 2, 2, 2, 1, 1, 0], "cas": False, "dbl": [0]},
         # pre-forking server: 0 holds, forked worker 1 calls unlock() on the inherited object, 2 contends
         {"n": 3, "dead": [], "l0": None, "sched": [1, 2, 2, 2, 0, 0, 2], "cas": False, "held": 0, "ustart": [1]},
         F21,
@@ -770,6 +818,13 @@ def gen(rng, tier):
     for w in words(2, kf):
         cases.append({"n": 2, "dead": [], "l0": None, "sched": w, "cas": False, "held": 0, "ustart": [1],
                       "made_by": {"1": 0}})
+    #  - unlock() by a process that does not hold: (a) 0 holds, former holder... 1 releases twice while 2 contends;
+    #    (b) 0 holds, 1 never held and calls unlock(), 2 contends -- every interleaving
+    for w in words(3, 6 if quick else 8):
+        if 1 in w:
+            cases.append({"n": 3, "dead": [], "l0": None, "sched": w, "cas": False, "dbl": [0, 1]})
+    for w in words(2, kf):
+        cases.append({"n": 2, "dead": [], "l0": None, "sched": w, "cas": False, "dbl": [0]})
     # random long schedules: 2-5 processes, bursts, dead pids among the scheduled ones, any initial link
     for _ in range(300 if quick else 5000):
         n = rng.randrange(1, 6)
@@ -787,6 +842,8 @@ def gen(rng, tier):
             others = [p for p in live if p != c.get("held") and p != c["l0"]]
             c["ustart"] = sorted(rng.sample(others, rng.randrange(0, len(others) + 1)))
             c["made_by"] = {str(p): rng.randrange(n + 3) for p in live if rng.random() < 0.4}
+        if rng.random() < 0.3 and live:
+            c["dbl"] = sorted(rng.sample(live, rng.randrange(1, len(live) + 1)))
         cases.append(c)
     return cases
 
@@ -800,6 +857,7 @@ def to_coq(case):
             f"{coq_option(None if case['l0'] is None else nat(case['l0']), 'nat')}, "
             f"{coq_option(None if held is None else nat(held), 'nat')}, "
             f"{coq_list(map(nat, case.get('ustart') or []), 'nat')}, "
+            f"{coq_list(map(nat, case.get('dbl') or []), 'nat')}, "
             f"{coq_list(map(nat, case['sched']), 'nat')})")
 
 
@@ -816,6 +874,7 @@ def _hist(c, o):
         return "real processes: " + c["scenario"]
     l0 = "free" if c["l0"] is None else "stale" if c["l0"] in c["dead"] else "live-link"
     fork = " fork" if c.get("held") is not None or c.get("ustart") or c.get("made_by") else ""
+    fork += " double-release" if c.get("dbl") else ""
     return f"n={c['n']} {l0}{' cas-sim' if c.get('cas') else ''}{fork}"
 
 
